@@ -10,7 +10,7 @@ def run(ck):
     model, minfo = vf.build_model()
     if not model: raise RuntimeError(minfo)
     q = ck.quick(); rng = ck.rng
-    CFGS = [(16, 64, 2), (32, 8, 2), (64, 8, 1), (16, 8, 2), (32, 4, 1), (32, 2, 1), (64, 4, 2), (16, 2, 1), (16, 4, 1)]
+    CFGS = [(32, 256, 3), (16, 64, 2), (32, 8, 2), (64, 8, 1), (16, 8, 2), (32, 4, 1), (32, 2, 1), (64, 4, 2), (16, 2, 1), (16, 4, 1)]
     exes, errs = sc.build(CFGS)
     for b, ch, err in errs: ck.violation("sampler harness does not compile", {"compiler_output": err[-3000:]}, tag="build", no_input=True)
     fails, corr = [], []
@@ -119,6 +119,22 @@ def run(ck):
         v = sc.verdict("hwt", wd, [params[32]["rows"][cm][0] for cm in range(2)], 8)
         if v: fails.append(("fixed weight", line, v))
     ck.stream("fixed weight: rejection boundary words", len(cases))
+    # ---- large weights with several moduli: the scratch buffer of hwt words is refilled many times by the reservoir stage and once more for the
+    # signs, which every modulus must read from the same words (one signed value per coefficient); random tapes, compared with the model
+    cases = []
+    for h in (1, 2, 63, 64, 65, 100, 128, 200, 255, 256):
+        for rep in range(2 if q else 6):
+            nwords = 256 + 3 * h + 64
+            cases.append(("fixed weight: large weights, three moduli", (32, 256, 3), "hwt 32 256 3 %d T %s" % (h, "".join(sc.le(rng.getrandbits(64), 8) for _ in range(nwords)))))
+    res = collect(cases); ps3 = [params[32]["rows"][cm][0] for cm in range(3)]
+    for (stream, cfg_, line), st, wd, tail, mline in res:
+        if "EXHAUSTED" in tail: continue
+        v = sc.verdict("hwt", wd, ps3, 256); h = int(line.split()[4])
+        if not v:
+            sg = [0 if x == 0 else (1 if x == 1 else (-1 if x == ps3[0] - 1 else 9)) for x in wd[:256]]
+            if sum(1 for s_ in sg if s_ != 0) != h or any(s_ == 9 for s_ in sg): v = "not exactly %d coefficients in {-1,+1}" % h
+        if v: fails.append(("fixed weight (large weight, three moduli)", line[:60], v))
+    ck.stream("fixed weight: large weights, three moduli", len(cases))
     ck.samples = ["uniform 16 64 2 T <all 2^16 words>", "bounded 32 8 2 B A T <all masked words>", "zo 16 8 2 rho T <all 256 bytes>", "hwt 32 8 2 4 T <all 1680 reduced index tapes>"] + [c[2][:120] for c in cases[:2]]
     for s, l, v in fails[:3]:
         ck.violation("sampler distribution violates the property: %s: %s (%s)" % (s, v[:300], l[:160]), {"stream": s, "case": l, "what": v}, tag="dist")
